@@ -171,7 +171,7 @@ func main() {
 		b    []byte
 	}{{"absent", nil}, {"v4", []byte{203, 0, 113, 9}}, {"v4mapped", net.ParseIP("203.0.113.9").To16()}, {"v6", net.ParseIP("2001:db8:99::9")}, {"5bytes", []byte{1, 2, 3, 4, 5}}, {"0bytes", []byte{}}}
 	ttls := map[string]map[uint64]bool{"New": {}, "Update": {}}
-	overrides := []string{"none", "port", "phantom", "v4-in-v6-slot", "v4mapped-in-v6-slot"}
+	overrides := []string{"none", "port", "phantom", "v4-in-v6-slot", "v4mapped-in-v6-slot", "5bytes-in-v6-slot", "17bytes-in-v6-slot"}
 	secrets := [][]byte{vfix.Secret(80), vfix.Secret(81)}
 	libvers := []uint32{0, 2, 4} // 0: legacy selection; 2: newest client that never randomises its port; 4: current
 	if a.Thorough() {
@@ -214,6 +214,12 @@ func main() {
 									w.RegistrationResponse = &pb.RegistrationResponse{Ipv6Addr: net.ParseIP("198.51.100.7").To4(), DstPort: proto.Uint32(8443)}
 								case "v4mapped-in-v6-slot":
 									w.RegistrationResponse = &pb.RegistrationResponse{Ipv6Addr: net.ParseIP("198.51.100.7").To16(), DstPort: proto.Uint32(8443)}
+								case "5bytes-in-v6-slot":
+									// a registrar response whose IPv6 field is not an address at all (the station does not
+									// verify the response's signature; the bytes are whatever the forwarding path carried)
+									w.RegistrationResponse = &pb.RegistrationResponse{Ipv6Addr: []byte{1, 2, 3, 4, 5}, DstPort: proto.Uint32(8443)}
+								case "17bytes-in-v6-slot":
+									w.RegistrationResponse = &pb.RegistrationResponse{Ipv6Addr: append(net.ParseIP("2001:db8:1::7").To16(), 9), DstPort: proto.Uint32(8443)}
 								case "phantom":
 									w.RegistrationResponse = &pb.RegistrationResponse{Ipv4Addr: proto.Uint32(0xC6336407), Ipv6Addr: net.ParseIP("2001:db8:1::7"), DstPort: proto.Uint32(8443)}
 								}
